@@ -333,7 +333,22 @@ pub fn check_tree(tape: &[u16], rc: &mut RCase) -> Result<(), Failure> {
     let key = hash64(&format!("{:?}", tx));
     let r1 = match guard(|| tx.clone().reduce()) {
         Ok(Ok(r)) => r,
-        Ok(Err(_)) => {
+        Ok(Err(e)) => {
+            // reduce folds closed sub-expressions only, and applying arguments does not touch those: when the
+            // open template cannot be reduced, the template with its arguments applied cannot either. The
+            // converse - reduce fails early, succeeds once the arguments are in - means the early reduction did
+            // something to a part that was still open.
+            let params = tx3_tir::reduce::find_params(&tx3_tir::encoding::AnyTir::V1Beta0(tx.clone()));
+            if !params.is_empty() {
+                let args: BTreeMap<String, ArgValue> = params.iter().map(|(k, ty)| (k.clone(), super::c06::arg_for(ty, &mut t))).collect();
+                if let Ok(Ok(late)) = guard(|| tx.clone().apply_args(&args).and_then(|x| x.reduce())) {
+                    return Err(Failure::new(
+                        "early_reduce_fails_where_late_reduce_succeeds",
+                        format!("random IR tree: reduce(t) = Err({}) but reduce(apply_args(t)) succeeds", crate::util::trunc(&format!("{:?}", e), 300)),
+                        json!({"tir": crate::util::trunc(&format!("{:?}", tx), 3000), "args": format!("{:?}", args), "late": crate::util::trunc(&format!("{:?}", late), 2000)}),
+                    ));
+                }
+            }
             rc.label("tree:reduce_err");
             rc.record(key, false, rendered);
             return Ok(());
